@@ -668,6 +668,12 @@ func init() {
 						okOut = true
 					}
 				}
+				// doc.EndSeqNum = t.endSeqNum on a document value (named result / local)
+				if as, ok := nd.(*ast.AssignStmt); ok && len(as.Lhs) == 1 && len(as.Rhs) == 1 {
+					if sel, ok := ast.Unparen(as.Lhs[0]).(*ast.SelectorExpr); ok && sel.Sel.Name == "EndSeqNum" && prog.SelField(doc.Pkg.TypesInfo, as.Rhs[0]) == end {
+						okOut = true
+					}
+				}
 				return true
 			})
 			inspect(fromDoc.Decl.Body, func(nd ast.Node) bool {
